@@ -10,7 +10,8 @@
 //
 // Output: `init <id> ring|e2e …` then one `op => observation` line per call on the real code:
 //   ring : cap N => ok | st X => ok | pr => x1,x2,…   (ids handed to the callback, `-` = none)
-//   e2e  : ib L cap Level | lg L Level id | ld L Level id | bt L id | fb L   => ok
+//   e2e  : ib L cap Level | lg L Level id | ld L Level id (LOG_DYNAMIC) | bt L id | fb L   => ok
+//          lgx / btx = the same call made by a short-lived thread that exits before the backend polls
 //          poll => L:Level:id,…,E   (write_log calls on the recording sink / "init_backtrace first" errors, in order)
 // plus `ORACLE …` lines where the property itself fails on the real code (independent reference: a deque trimmed
 // at every push; documented severity order), and a final `STATS` line.
@@ -26,6 +27,7 @@
 #include <sstream>
 #include <string>
 #include <string_view>
+#include <thread>
 #include <vector>
 
 #include "quill/Backend.h"
@@ -346,8 +348,8 @@ static bool level_of(std::string const& n, LogLevel& out)
 
 static std::vector<std::string> g_events; // sink writes and notifier errors, in order, since the last poll
 static std::string g_case_prefix;
-static std::string g_first_thread_id;
-static bool g_thread_id_ok = true;
+static std::map<std::string, std::string> g_expect_tid; // "L:id" -> id of the thread that made the call
+static std::string g_tid_problem;
 
 struct RecSink : quill::Sink
 {
@@ -360,8 +362,11 @@ struct RecSink : quill::Sink
     if (ln.rfind(g_case_prefix, 0) == 0) { ln = ln.substr(g_case_prefix.size()); }
     else { ln = "stale:" + ln; }
     g_events.push_back(ln + ":" + level_name(log_level) + ":" + std::string{log_message});
-    if (g_first_thread_id.empty()) { g_first_thread_id = std::string{thread_id}; }
-    else if (g_first_thread_id != std::string{thread_id}) { g_thread_id_ok = false; }
+    auto it = g_expect_tid.find(ln + ":" + std::string{log_message});
+    if (it != g_expect_tid.end() && it->second != std::string{thread_id} && g_tid_problem.empty())
+    {
+      g_tid_problem = ln + ":" + std::string{log_message} + " logged by thread " + it->second + " written with thread id " + std::string{thread_id};
+    }
   }
   void flush_sink() override {}
 };
@@ -405,6 +410,8 @@ struct E2E
     e2e_setup();
     g_case_prefix = id + "/";
     g_events.clear();
+    g_expect_tid.clear();
+    g_tid_problem.clear();
     emit("init " + id + " e2e " + g_params + " " + g_levels);
   }
 
@@ -449,8 +456,8 @@ struct E2E
       // validate before printing anything
       LogLevel lv;
       bool const ok = (w[0] == "ib" && w.size() == 4 && level_of(w[3], lv)) ||
-        ((w[0] == "lg" || w[0] == "ld") && w.size() == 4 && level_of(w[2], lv) && sev_index(w[2]) >= 0) ||
-        (w[0] == "bt" && w.size() == 3) || (w[0] == "fb" && w.size() == 2);
+        ((w[0] == "lg" || w[0] == "ld" || w[0] == "lgx") && w.size() == 4 && level_of(w[2], lv) && sev_index(w[2]) >= 0) ||
+        ((w[0] == "bt" || w[0] == "btx") && w.size() == 3) || (w[0] == "fb" && w.size() == 2);
       if (!ok) { return false; }
     }
     begin_op(text);
@@ -464,12 +471,38 @@ struct E2E
       flush_level[w[1]] = si >= 0 ? si : 9;
       ++g_stats["e2e_init_backtrace"];
     }
+    else if (w[0] == "lgx" && w.size() == 4)
+    {
+      // the statement is made by a short-lived thread that has exited before the backend sees it
+      LogLevel lv;
+      level_of(w[2], lv);
+      quill::Logger* l = logger(w[1]);
+      uint64_t const x = std::stoull(w[3]);
+      std::string tid;
+      std::thread t([&] { tid = std::to_string(quill::detail::get_thread_id()); LOG_DYNAMIC(l, lv, "{}", x); });
+      t.join();
+      g_expect_tid[w[1] + ":" + w[3]] = tid;
+      ++g_stats["e2e_statements"];
+      ++g_stats["e2e_calls_from_short_lived_threads"];
+    }
+    else if (w[0] == "btx" && w.size() == 3)
+    {
+      quill::Logger* l = logger(w[1]);
+      uint64_t const x = std::stoull(w[2]);
+      std::string tid;
+      std::thread t([&] { tid = std::to_string(quill::detail::get_thread_id()); LOG_BACKTRACE(l, "{}", x); });
+      t.join();
+      g_expect_tid[w[1] + ":" + w[2]] = tid;
+      ++g_stats["e2e_backtrace_statements"];
+      ++g_stats["e2e_calls_from_short_lived_threads"];
+    }
     else if ((w[0] == "lg" || w[0] == "ld") && w.size() == 4)
     {
       LogLevel lv;
       if (!level_of(w[2], lv) || sev_index(w[2]) < 0) { return false; }
       quill::Logger* l = logger(w[1]);
       uint64_t const x = std::stoull(w[3]);
+      g_expect_tid[w[1] + ":" + w[3]] = std::to_string(quill::detail::get_thread_id());
       if (w[0] == "ld") { LOG_DYNAMIC(l, lv, "{}", x); }
       else
       {
@@ -493,6 +526,7 @@ struct E2E
     {
       quill::Logger* l = logger(w[1]);
       uint64_t const x = std::stoull(w[2]);
+      g_expect_tid[w[1] + ":" + w[2]] = std::to_string(quill::detail::get_thread_id());
       LOG_BACKTRACE(l, "{}", x);
       ++g_stats["e2e_backtrace_statements"];
     }
@@ -541,7 +575,7 @@ struct E2E
         }
         r.inited = true;
       }
-      else if (w[0] == "bt")
+      else if (w[0] == "bt" || w[0] == "btx")
       {
         if (!r.inited)
         {
@@ -574,10 +608,10 @@ struct E2E
     {
       oracle("sink-sequence-differs expected=[" + join(want) + "] got=[" + join(g_events) + "]");
     }
-    if (!g_thread_id_ok)
+    if (!g_tid_problem.empty())
     {
-      oracle("thread-id-of-a-replayed-statement-differs");
-      g_thread_id_ok = true;
+      oracle("thread-id-of-a-written-statement-differs " + g_tid_problem);
+      g_tid_problem.clear();
     }
     g_events.clear();
     pending.clear();
@@ -660,14 +694,15 @@ static void gen_e2e_case(Rng& rng, std::string const& id, unsigned budget)
       n = std::min<uint64_t>(n, 40);
       for (uint64_t i = 0; i < n; ++i)
       {
-        e.op({"bt", (two && rng.chance(15)) ? lgname() : lg, std::to_string(next++)});
+        e.op({rng.chance(12) ? "btx" : "bt", (two && rng.chance(15)) ? lgname() : lg, std::to_string(next++)});
         ++used;
         if (poll_each) { e.op({"poll"}); }
       }
     }
     else if (k < 75)
     {
-      e.op({rng.chance(25) ? "ld" : "lg", lg, pick_level_near(rng, fl.count(lg) ? fl[lg] : 9), std::to_string(next++)});
+      unsigned const how = static_cast<unsigned>(rng.below(100));
+      e.op({how < 20 ? "ld" : (how < 30 ? "lgx" : "lg"), lg, pick_level_near(rng, fl.count(lg) ? fl[lg] : 9), std::to_string(next++)});
       ++used;
     }
     else if (k < 85)
